@@ -181,3 +181,17 @@ prop("C20", kind="c20", level="fault_enumeration",
      level_text="fault enumeration per password change: every crash point between its file-system calls (plus torn writes and a power-loss view) and every error / short-write outcome of each call, each judged by starting a fresh real daemon on the resulting file; authorisation and effect decided by the reference model; exhaustive for the scenarios executed",
      technique="deterministic simulation with fault injection: simulated file system with a durable view, crash-point and fault-outcome enumeration, fresh-daemon reload oracle, reference model for authorisation",
      nontrivial=[])
+
+prop("C19",
+     mix=[("c19", "default", 3), ("c19", "small", 1), ("c19", "batch1", 1)],
+     quick_mix=[("c19", "default", 1)],
+     quick_s=30, thorough_s=600, opts={"memprop": "C19"},
+     rule="two endpoints over the simulated transport: an independent client (system zlib raw deflate/inflate, own RFC 7692 negotiation checker) and the real websocket.c + compression.c + bundled zlib behind a small echo harness started with compression level 1-3 "
+          "(the shipped main() never enables compression; main.c and linux_io.c are replaced by sim/c19_harness.c). Seeded: extension offers (any subset, order and spelling of the four parameters, legal and illegal values, several offers, none), "
+          "message sequences (context takeover makes the stream stateful) with empty, 1-3 byte, incompressible, highly repetitive (inflating far beyond the message limit) and JSON-like payloads, text and binary, compressed and plain, "
+          "fragment-size sequences, transport segmentation and read caps, bit flips / truncation / junk in the compressed bytes in transit. Oracle: the negotiation response is legal for one of the offers; every echoed message inflates to exactly what was sent, "
+          "in order; nothing unsolicited; valid traffic never ends the connection; no sanitizer or arena report (the module's malloc/realloc/free go through the poisoned arena); baseline and clean exit afterwards. "
+          "non-trivial: the extension was negotiated and a compressed message made the round trip, or a damaged stream was injected; distinct by trace hash",
+     nontrivial=[["c19_negotiated", "c19_roundtrip_ok"], ["c19_negotiated", "fault:corrupt_compressed_stream:flip"], ["c19_negotiated", "fault:corrupt_compressed_stream:trunc"], ["c19_negotiated", "fault:corrupt_compressed_stream:junk"]],
+     stub_extra="; for C19 additionally posix/main.c and linux/linux_io.c (replaced by sim/c19_harness.c, an echo endpoint that calls init_http_connection2 with the drawn compression level)",
+     required_probes=["c19_negotiated", "c19_roundtrip_ok", "c19_compressed_message_received", "c19_fragmented_message", "c19_empty_message", "c19_param:server_no_context_takeover", "c19_param:client_no_context_takeover", "c19_param:server_max_window_bits", "c19_not_negotiated"])
